@@ -235,7 +235,12 @@ def evaluate(case):
     if kind == "passthrough":
         return [failure(s, case, d) for s, d in check_passthrough()]
     try:
-        schema, xml = loadcheck.load_schema(case["schema"])
+        xml = gen.render_schema(case["schema"])
+        if xml not in _XML_CACHE:
+            if len(_XML_CACHE) > 32:
+                _XML_CACHE.clear()
+            _XML_CACHE[xml] = loadcheck.load_schema_xml(xml)
+        schema = _XML_CACHE[xml]
     except Exception:
         return []
     if kind == "text":
@@ -250,12 +255,22 @@ def evaluate(case):
 
 def shards(tier, seed):
     n = 9000 if tier == "thorough" else 900
-    return [{"seed": seed, "lo": i * n, "hi": (i + 1) * n} for i in range(16)]
+    specs = [{"seed": seed, "lo": i * n, "hi": (i + 1) * n} for i in range(16)]
+    specs.insert(0, {"atheris": True, "seed": seed, "runs": 6000 if tier == "quick" else 400000})
+    return specs
+
+
+_XML_CACHE = {}
 
 
 def run_shard(spec):
     res = Result()
     counters = collections.Counter()
+    if spec.get("atheris"):
+        import sys
+        from zcv import fuzzrun
+        fuzzrun.run(res, sys.modules[__name__], ID, spec["runs"], spec["seed"], max_len=400, timeout=1500)
+        return res
     if spec["lo"] == 0:
         res.evaluations += 1
         for sig, d in check_passthrough():
@@ -319,3 +334,44 @@ def check_coverage(tier, c):
         if c.get(k, 0) < 30:
             problems.append("class %s has only %d cases" % (k, c.get(k, 0)))
     return problems
+
+
+# ------------------------------------------------------------------ Atheris stage (python3-vt)
+
+_POOL = []
+
+
+def _pool():
+    if not _POOL:
+        for k in range(6):
+            rng = loadcheck.case_rng(424242, k)
+            ast = gen.gen_schema(rng)
+            sm = refload.compile_schema(ast)
+            _POOL.append((ast, sm))
+    return _POOL
+
+
+def fuzz_decode(data):
+    """byte 0: schema of a fixed pool (low 3 bits) and whether byte 1.. also holds an override
+    (bit 7); the rest is the configuration text."""
+    if not data:
+        return []
+    pool = _pool()
+    ast, _sm = pool[(data[0] & 7) % len(pool)]
+    text = data[1:].decode("utf-8", "replace")
+    case = {"kind": "text", "schema": ast, "text": text}
+    if data[0] & 0x80 and "\n" in text:
+        first, rest = text.split("\n", 1)
+        case["text"] = rest
+        case["overrides"] = [first]
+    return [case]
+
+
+def fuzz_seeds():
+    out = []
+    for k, (ast, sm) in enumerate(_pool()):
+        rng = loadcheck.case_rng(434343, k)
+        for f in (0, 0, 1):
+            out.append(bytes([k]) + gen.gen_text(rng, sm, f).encode("utf-8"))
+        out.append(bytes([k | 0x80]) + ("alpha=1\n" + gen.gen_text(rng, sm, 0)).encode("utf-8"))
+    return out
